@@ -770,6 +770,10 @@ func crashGen(r *rand.Rand, n int, thorough bool) []Case {
 		}
 		ops := []string{"open " + cfg}
 		nk := 3 + r.Intn(4)
+		ckeys := userKeys
+		if c%2 == 1 {
+			ckeys = subsetKeys(r, nk)
+		}
 		nt := 14 + r.Intn(14)
 		tags := []string{"crash-points", "lossy-tails", "nested-crash"}
 		if manyTables {
@@ -780,7 +784,7 @@ func crashGen(r *rand.Rand, n int, thorough bool) []Case {
 			var kvs []string
 			cnt := 1 + r.Intn(4)
 			for j := 0; j < cnt; j++ {
-				k := userKeys[r.Intn(nk)]
+				k := ckeys[r.Intn(nk)]
 				if r.Intn(6) == 0 {
 					kvs = append(kvs, hxs(k)+"=-")
 				} else {
